@@ -324,6 +324,8 @@ Fixpoint c16_from (cs : syscase) (reqs : list (id * (id * id))) (ended : list id
                 match client_of cs cl with Some c => (match c_ciba_mode c with CibaPush => 4 | _ => 0 end) | None => 0 end
             | None => 0 end
         | OpNotifyOk a _, Notified _ ns | OpNotifyFail a, Notified _ ns =>
+            (* push delivery after the denial of that very request had been delivered: the denial ended it *)
+            if andb (memN a ended) (existsb (fun nf => negb (is_nil (nf_at nf))) ns) then 6 else
             match lookup a reqs with
             | Some (cl, tok) =>
                 match client_of cs cl with
@@ -341,6 +343,8 @@ Fixpoint c16_from (cs : syscase) (reqs : list (id * (id * id))) (ended : list id
                          (match o, x with
                           | OpToken GCiba r, Out (OErr EAccessDenied) => (match t_ba r with BaDeny => t_auth_req r :: ended | _ => ended end)
                           | OpToken GCiba r, Out (OErr EInternalError) => (match t_ba r with BaFail => t_auth_req r :: ended | _ => ended end)
+                          (* a failure notification that delivered the error to a push client *)
+                          | OpNotifyFail a, Notified true ns => if existsb nf_err ns then a :: ended else ended
                           | _, _ => ended end) (S k) ops' xs'
       | c => viol c k
       end
